@@ -147,7 +147,7 @@ def generate(rng, opts):
             elif fk == "ext":
                 faults.append({"kind": "ext", "nth": rng.choice([0, 1, 2, 3, 5, 8, 13, 21, 40]), "how": rng.choice(["exception", "kbi", "systemexit"])})
             elif fk == "ext_write":
-                faults.append({"kind": "ext", "nth": rng.choice([0, 1, 3, 8]), "how": "write_file"})
+                faults.append({"kind": "ext", "nth": rng.choice([0, 1, 3, 8]), "how": rng.choice(["write_file", "write_file", "detach_checkout"])})
             else:
                 faults.append({"kind": "bytecode"})
         if r < 0.6:
@@ -453,6 +453,14 @@ def make_fault_extension(griffe, faults, ctx, counter, tmp_prefix):
                         os.makedirs(d, exist_ok=True)
                         with open(os.path.join(d, "written-by-extension.pyc"), "wb") as fh:
                             fh.write(b"\0")
+                    if f["how"] == "detach_checkout" and where is not None and str(where).startswith(tmp_prefix):
+                        # code run during loading (a build step, `git init`, a clean-up script) removes the link file
+                        # that ties the temporary checkout to the repository - only ever inside Griffe's checkout
+                        top = str(where)[len(tmp_prefix):].split(os.sep)
+                        link = os.path.join(tmp_prefix, top[0], top[1], ".git") if len(top) > 2 else None
+                        if link and os.path.isfile(link):
+                            os.remove(link)
+                            ctx.fault("checkout-link-removed")
 
         def on_node(self, *, node, agent, **kwargs):
             self._hit(getattr(agent, "filepath", None))
@@ -805,7 +813,7 @@ def _tags(world, op, faults, shim, ctx):
     if world["state"]["user_worktree"] == "stale":
         tags.add("user-has-stale-worktree")
     for f in faults:
-        if f["kind"] == "ext" and f["how"] == "write_file" and ctx.faults.get("ext-write_file"):
+        if f["kind"] == "ext" and f["how"] in ("write_file", "detach_checkout") and ctx.faults.get("ext-" + f["how"]):
             tags.add("files-written-into-checkout")
         if f["kind"] == "bytecode":
             tags.add("files-written-into-checkout")
